@@ -269,6 +269,31 @@ func suiteEvalCore(o *Out, thorough bool, seed int64) {
 	if thorough {
 		n = 400000
 	}
+	// statements of the library that random programs reach rarely or never (found by measuring the statement
+	// coverage of /repo under all suites): callee positions that are not names, member access on an operand whose
+	// evaluation fails, the builtins mapToArr and roundCash
+	{
+		rows := "A3 " + wmap("k", "Ii:1", "j", ws("x")) + " " + wmap("k", ws("z")) + " " + wmap("j", "N")
+		data := wmap("rows", rows, "none", "A0", "f", "H1", "fv", "H2", "m", wmap("f", "H1", "k", "Ii:3"), "x", "Ii:5", "s", ws("txt"), "n", "N")
+		for _, t := range []string{"mapToArr(rows, 'k')", "mapToArr(rows, 'j')", "mapToArr(rows, 'zz')", "mapToArr(none, 'k')", "mapToArr([], 'k')", "mapToArr(rows, 1)", "mapToArr(x, 'k')",
+			"mapToArr(n, 'k')", "mapToArr([1, 2], 'k')", "mapToArr([rows], 'k')", "join(mapToArr(rows, 'j'), '-')", "len(mapToArr(rows, 'k'))", "mapToArr(rows)", "mapToArr(rows, 'k', 'j')",
+			"roundCash(2.53, 2)", "roundCash(2.55, 2)", "roundCash(-2.5, 0)", "roundCash(x, x)", "roundCash('a', 1)", "roundCash(1)", "roundCash(1e30, 2)", "roundCash(0.05, 2)", "roundCash(1/0, 1)",
+			"f()()", "f(1)(2)", "(f)(1)", "(m.f)(1)", "m.f(1)", "m.k(1)", "[f][0]", "(1, f)(2)", "(x ? f : f)(1)", "'s'(1)", "1(2)", "null(1)", "f(1).k", "f(1)!.k", "m.f(1).k.j",
+			"f(1, 2, 3).k", "nofn(1).k", "fv(1, 2).k", "fv('a').k", "(1 + s).k", "(s - 1).k", "n!.k.j", "(n!.k).j", "[n!.k][0]", "m.nope!.k", "m.k!.j", "(x.y).z", "x.y!.z",
+			"this.f(1)", "this.m.f(1)", "this.nope(1)", "this(1)", "m.f.g(1)", "f.g(1)", "typeof f(1)", "typeof nofn", "typeof m.f", "f(typeof f)", "-f(1)", "!f(1)", "~f(1)", "+f(1)", "f(1) ?? 2"} {
+			obs, fails := implEval(t, 0, hosts, data)
+			line := fmt.Sprintf("EV\t%s\t0\t%s\t%s", hx([]byte(t)), hosts, data)
+			if obs == "parse-error" {
+				o.Stat("generator-parse-error")
+				continue
+			}
+			o.Case(line, obs, true)
+			o.Stat("outcome-" + obs[:1])
+			for _, f := range fails {
+				o.Fail(line, f)
+			}
+		}
+	}
 	for i := 0; i < n; i++ {
 		text := g.expr(0, 1+r.Intn(4))
 		data := coreData[r.Intn(len(coreData))]
